@@ -74,6 +74,64 @@ def under_seeds(values_kw, seeds):
     return res
 
 
+HISTORY_SCRIPT = r'''
+import sys, json
+sys.path.insert(0, %r)
+from decimal import Decimal
+from deepdiff import DeepHash
+out = []
+for src, kw in json.loads(sys.stdin.read()):
+    v = eval(src)
+    try:
+        out.append(DeepHash(v, **kw)[v])
+    except Exception as e:
+        out.append('raised ' + type(e).__name__)
+print(json.dumps(out))
+'''
+
+TWINS = [('0.0', '-0.0'), ("Decimal('2.5')", "Decimal('2.50')"), ("Decimal('1000')", "Decimal('1E+3')"), ('complex(0, 0.0)', 'complex(0, -0.0)'),
+         ("Decimal('0')", "Decimal('-0')"), ("Decimal('0')", "Decimal('0.0')"), ('complex(0.0, 1)', 'complex(-0.0, 1)'), ("Decimal('1.10')", "Decimal('1.1')")]
+
+
+def history_independence(ctx):
+    """the digest of a value does not depend on what the process hashed before, in other DeepHash runs with tables of their own: numbers of
+    one type that are == and print differently (0.0 / -0.0, Decimal('2.5') / Decimal('2.50')) are hashed one after the other here, and in
+    the opposite order in a fresh interpreter; every value must get the same digest in both"""
+    from decimal import Decimal
+    from deepdiff import DeepHash
+    wraps = ['%s', '[%s]', "{'k': %s}", '(%s, 1)', "[1, {'a': [%s]}]"]
+    jobs = []
+    for a, b in TWINS:
+        for w in wraps:
+            for (rep, order) in HS.MODES.values():
+                kw = dict(ignore_repetition=rep, ignore_iterable_order=order)
+                jobs.append((w % a, kw)); jobs.append((w % b, kw))
+    ctx.rng.shuffle(jobs)
+    here = []
+    for src, kw in jobs:
+        v = eval(src, {'Decimal': Decimal})
+        try:
+            here.append(DeepHash(v, **kw)[v])
+        except Exception as e:
+            here.append('raised ' + type(e).__name__)
+    rev = list(reversed(jobs))
+    p = subprocess.run(['/venv/bin/python', '-c', HISTORY_SCRIPT % core.REPO], input=json.dumps(rev), capture_output=True, text=True, timeout=600)
+    if p.returncode != 0:
+        raise core.ToolFailure('history subprocess failed: ' + p.stderr[-300:])
+    there = list(reversed(json.loads(p.stdout.strip().split('\n')[-1])))
+    for (src, kw), h1, h2 in zip(jobs, here, there):
+        ctx.evaluations += 1
+        ctx.count('history_independence')
+        ctx.nontriv((src, repr(sorted(kw.items())), 'history'))
+        if h1 != h2:
+            ctx.violate({'value': src, 'kwargs': kw, 'scenario': 'the same value hashed in this process after other values, and in a fresh interpreter after the same values in the opposite order'},
+                        'the digest of a value depends on what was hashed before it in other DeepHash runs: %s here, %s there' % (h1[:16], h2[:16]))
+    # the two twins of a pair print differently, so their digests differ (not part of C06; counted to show that the family is not vacuous)
+    by = dict(zip([(s_, repr(sorted(k_.items()))) for s_, k_ in jobs], here))
+    ctx.count('history_twins_with_different_digests', sum(1 for a, b in TWINS for (rep, order) in [(True, True)]
+              if by.get((a, repr(sorted(dict(ignore_repetition=rep, ignore_iterable_order=order).items())))) != by.get((b, repr(sorted(dict(ignore_repetition=rep, ignore_iterable_order=order).items()))))))
+
+
 def run(ctx, impl_only=False):
     from deepdiff import DeepHash
     findings = {f['id']: f for f in core.load_findings(ID) if f.get('status') == 'open'}
@@ -164,6 +222,7 @@ def run(ctx, impl_only=False):
         if DeepHash(lst, hashes=table, **kw)[lst] != HS.deephash([1, 2, ['x', 'y'], 3], **kw)[0]:
             ctx.violate({'value': repr(lst), 'mode': mname, 'scenario': 'shared table, container edited in place between calls'},
                         'a shared hashes table changes the hash (stale entry reused)')
+    history_independence(ctx)
     # ---- PYTHONHASHSEED
     seeds = list(range(1, 17)) if ctx.thorough() else [1, 2, 4]
     sv = [(v, dict(ignore_repetition=rep, ignore_iterable_order=order)) for v in vals[: (200 if ctx.thorough() else 60)]
